@@ -88,7 +88,7 @@ def gen(ctx):
         for n in range(1, 4):
             args = [[c, s, st, en, fl] for c, s, st, en, fl in itertools.product(
                 range(1, n + 2), [None, 1, 2], [None] + list(range(0, n + 1)), [None] + list(range(0, n + 2)), (True, False))]
-            cases.append(dict(n=n, args=args, nptype=npt))
+            cases.append(dict(n=n, args=args, nptype=npt, flagtype={'uint64': 'np', 'uint8': 'int'}.get(npt)))
     # chunk length and step size as NumPy integers of a narrow type, on an array longer than the type can count
     for npt in ('int8', 'uint8', 'int16'):
         args = [[c, s, st, en, fl] for c in (100, 127, 50, 1) for s in (None, 100, 60, 127) for st in (None, 5)
